@@ -865,6 +865,16 @@ func (e *Env) ufCall(m *Macro, args []TV) (TV, error) {
 		rsort, rtyp = SBool, tBool
 	case "string":
 		rsort, rtyp = SStr, types.Typ[types.String]
+	case "int", "":
+	default:
+		// a Go type such as time.Time
+		nerr := len(vc.errs)
+		t, s := vc.lemmaParamType(e, m.RType)
+		if len(vc.errs) > nerr {
+			vc.errs = vc.errs[:nerr]
+			return TV{}, fmt.Errorf("ufunc %s: unknown result type %s", m.Name, m.RType)
+		}
+		rsort, rtyp = s, t
 	}
 	var asorts, astr []string
 	for _, a := range args {
